@@ -139,3 +139,12 @@ Lemma gen_ir_enum_numbers :
   enum_has "InterpolationSampling" SM_Sample "SamplingSample" &&
   enum_has "StorageAccessMode" ACCESS_ReadWrite "StorageReadWrite" && enum_has "StorageAccessMode" ACCESS_Read "StorageRead" = true.
 Proof. vm_compute. reflexivity. Qed.
+
+(* the used-globals traversal of backend.go walks exactly the nested blocks Reach.stmt_calls walks:
+   Block, If (accept, reject), Switch (every case body), Loop (body and continuing); calls are StmtCall;
+   globals are read off the function's expression arena *)
+Lemma gen_reach_traversal_shape :
+  reach_cases = [("StmtCall", []); ("StmtBlock", ["Block"]); ("StmtIf", ["Accept"; "Reject"]);
+                 ("StmtSwitch", ["Body"]); ("StmtLoop", ["Body"; "Continuing"])] /\
+  reach_scans_expressions = true.
+Proof. vm_compute. split; reflexivity. Qed.
